@@ -7,7 +7,7 @@ use nom::{
     },
     combinator::{all_consuming, cut, map, map_opt, map_res, opt, recognize},
     error::{context, convert_error, ContextError, FromExternalError, ParseError, VerboseError},
-    multi::{many0, many1, separated_list0},
+    multi::{many0, many1, many_m_n, separated_list0},
     sequence::{delimited, pair, preceded, separated_pair, terminated, tuple as nom_tuple},
     IResult, Parser,
 };
@@ -20,6 +20,47 @@ use super::script::stdlib::*;
 use super::script::{Call, Value};
 
 pub type Span<'s> = LocatedSpan<&'s str>;
+
+// The grammar is recursive and so are the type checker and the evaluator that walk the resulting tree:
+// bound the nesting depth and the length of operator chains, otherwise a long enough expression (a rule
+// posted to the API, a config file) overflows the stack and aborts the process.
+const MAX_DEPTH: usize = 64;
+const MAX_CHAIN: usize = 255;
+thread_local! {
+    static DEPTH: std::cell::Cell<usize> = std::cell::Cell::new(0);
+}
+struct DepthGuard;
+impl DepthGuard {
+    fn enter() -> Option<Self> {
+        DEPTH.with(|d| {
+            if d.get() >= MAX_DEPTH {
+                None
+            } else {
+                d.set(d.get() + 1);
+                Some(DepthGuard)
+            }
+        })
+    }
+}
+impl Drop for DepthGuard {
+    fn drop(&mut self) {
+        DEPTH.with(|d| d.set(d.get() - 1));
+    }
+}
+macro_rules! nested {
+    ($i:ident, $parser:expr) => {{
+        let _guard = match DepthGuard::enter() {
+            Some(g) => g,
+            None => {
+                return Err(nom::Err::Failure(E::from_error_kind(
+                    $i,
+                    nom::error::ErrorKind::TooLarge,
+                )))
+            }
+        };
+        $parser($i)
+    }};
+}
 
 fn parse_many(op: Span, mut args: Vec<Value>) -> Value {
     let op = op.to_ascii_lowercase();
@@ -345,7 +386,7 @@ rule!(op_8(i) -> Value, {
     map(
         nom_tuple((
             op_value,
-            many0(alt((
+            many_m_n(0, MAX_CHAIN, alt((
                 op_index,
                 op_access,
                 op_call
@@ -362,13 +403,13 @@ rule!(op_8(i) -> Value, {
 });
 
 //unary opreator
-rule!(op_7(i) -> Value, {
-    alt((
+rule!(op_7(i) -> Value, no_ctx, {
+    nested!(i, context("op_7", ws(alt((
         map(nom_tuple((alt((tag("!"), tag("~"), tag("-"))), op_7)),
             |(op,p1)|parse1(op, p1)
         ),
         op_8
-    ))
+    )))))
 });
 
 macro_rules! op_rule {
@@ -377,7 +418,7 @@ macro_rules! op_rule {
             map(
                 nom_tuple((
                     $next,
-                    many0(nom_tuple((
+                    many_m_n(0, MAX_CHAIN, nom_tuple((
                         ws($tags),
                         $next
                     )))
@@ -462,11 +503,11 @@ rule!(op_let -> Value, {
     )
 });
 
-rule!(op_0 -> Value, {
-    alt((
+rule!(op_0(i) -> Value, no_ctx, {
+    nested!(i, context("op_0", ws(alt((
         op_let,
         op_if,
-    ))
+    )))))
 });
 
 rule!(root(i)->Value, {
